@@ -44,6 +44,10 @@ def cases(tier, seed):
                 k += 1
             out.append(dict(gen='part', subject=name, precision=prec, regime='R', struct='unbalanced', mode='explicit', sub=core.subseed('C04', seed, k), must=True))
             k += 1
+    # big batches of 8-bit traces: per-class sums of squares far beyond 2^24 inside ONE batch (single-precision fast paths lose bits there)
+    for j in range(3 if tier == 'quick' else 30):
+        out.append(dict(gen='part', subject=KINDS[j % 3], precision='float64', regime='E', struct=['balanced', 'unbalanced'][j % 2], mode='explicit', big=[6000, 20000, 9000][j % 3],
+                        sub=core.subseed('C04big', seed, j), must=j < 3))
     rs = np.random.default_rng(core.subseed('C04r', seed))
     n_rand = 260 if tier == 'quick' else 7000
     for j in range(n_rand):
@@ -65,7 +69,7 @@ def run_case(case):
         used = np.unique(np.append(rng.integers(0, maxv + 1, int(rng.integers(1, 12))), maxv))
         declared = None
     else:
-        K = int(rng.choice([2, 3, 5, 9, 10, 16, 40]))
+        K = int(rng.choice([2, 3, 5, 9, 10, 16, 40])) if not case.get('big') else int(rng.choice([2, 3, 9]))
         base = int(rng.choice([0, 0, 1, 200, 1000, 70000]))
         declared = (base + rng.permutation(2 * K)[:K]).tolist()
         nu = int(rng.integers(1, K + 1))
@@ -77,6 +81,9 @@ def run_case(case):
         n = ku
     else:
         n = gen.pick_n(rng, [ku + 1, 2 * ku + 3, 40, 150, 600])
+    if case.get('big'):
+        n, W, T = int(case['big']), 1, int(rng.integers(1, 3))
+        t.count('big_batch_cases')
     ddt = 'int32' if (np.max(used) > 32000) else subjects.DATA_DTYPES_LUT[int(rng.integers(6))]
     if np.max(used) > np.iinfo(ddt).max:
         ddt = 'int32'
@@ -108,6 +115,8 @@ def run_case(case):
             data = np.where(m, rng.choice(pool, (n, W)), data)
             foreign_rows = int(m.any(1).sum())
     tdtype = gen.TRACE_DTYPES[int(rng.integers(len(gen.TRACE_DTYPES)))]
+    if case.get('big'):
+        tdtype = ['uint8', 'int8'][int(rng.integers(2))]
     if regime == 'E':
         X = max(1, gen.exact_bound(n, prec, mode='full'))
         if n * n > gen.LIMIT[prec] - 1:
@@ -146,6 +155,9 @@ def run_case(case):
         sizes = [cut] + ([rest] if rest < 2 or rng.random() < 0.5 else [rest // 2, rest - rest // 2])
     between = bool(rng.random() < 0.5)
     kseq = [int(v) for v in rng.integers(0, 2, len(sizes))]
+    if case.get('big'):
+        sizes = [n // 2, n - n // 2]
+        kseq = [[0, 1], [1, 1], [1, 0]][int(rng.integers(3))]
 
     def execute(sp):
         obj = subjects.make(sp)
